@@ -84,6 +84,9 @@ def run(chk):
                 chk.distinct.add("flip-%s-%s-%d" % (c, s["id"], b))
             flips["%s/%s" % (c, s["id"])] = {k: row.get(k) for k in ("bits", "decode_error", "same_object", "rejected", "accepted_different", "panics")}
             for b in row["bad"]:
+                if b == "honest run failed":
+                    chk.cov["shapes_without_honest_proof"] = chk.cov.get("shapes_without_honest_proof", 0) + 1      # completeness is C01's business
+                    continue
                 b = b if isinstance(b, dict) else {"what": b}
                 chk.violation("bitflip-%s-%s-bit%s" % (c, s["id"], b.get("bit", "")), {"curve": c, "program": s, "flip": b}, "bit %s: %s" % (b.get("bit"), b.get("what")))
     chk.cov["bit_flip_sweeps"] = flips
